@@ -206,6 +206,8 @@ class PackageGenerator:
         )
         module_name = method_name
         file_name = f"{module_name}.py"
+        if file_name in self._result_types_files:
+            raise ParsingError(f"Duplicated file names: {file_name}")
 
         query_types_generator = ResultTypesGenerator(
             schema=self.schema,
@@ -266,7 +268,16 @@ class PackageGenerator:
             ]
             + list(self._result_types_files.keys())
             + [f.name for f in self.files_to_include]
+            + ["__init__.py"]
         )
+        if self.enable_custom_operations:
+            file_names.extend(
+                [f"{self.custom_help_field_module_name}.py", "custom_fields.py"]
+            )
+            if self.custom_query_generator:
+                file_names.append("custom_queries.py")
+            if self.custom_mutation_generator:
+                file_names.append("custom_mutations.py")
 
         if len(file_names) != len(set(file_names)):
             seen = set()
